@@ -405,6 +405,38 @@ func runC34(c *Ctx) {
 	// ---- A-key
 	c.keySourceAgreement()
 
+	// ---- U-key: explicit index-key removal accompanies the removal of the transaction that owns the key
+	c.R.Rule("U-key", "outside the conflict manager itself a pool function removes a key from a conflict slot (RemoveKey) only on a path on which it removed a transaction from the pool before (removeTransaction / doRemoveTransaction): the index never loses the key of a transaction that stays pooled")
+	{
+		rk := func(cm *ssa.CallCommon) bool {
+			o := ssau.CalleeObj(cm)
+			return o != nil && o.Name() == "RemoveKey" && o.Pkg() != nil && strings.HasSuffix(o.Pkg().Path(), "/mempool")
+		}
+		rm := func(cm *ssa.CallCommon) bool {
+			o := ssau.CalleeObj(cm)
+			return o != nil && (o.Name() == "removeTransaction" || o.Name() == "doRemoveTransaction") && o.Pkg() != nil && strings.HasSuffix(o.Pkg().Path(), "/mempool")
+		}
+		nk := 0
+		for _, f := range c.pkgFuncs("mempool") {
+			if f.Signature.Recv() == nil || ssau.TypeName(f.Signature.Recv().Type()) != "TxPool" {
+				continue
+			}
+			calls := ssau.CallsIn(f, rk)
+			if len(calls) == 0 {
+				continue
+			}
+			cut := ssau.NewCut()
+			for _, ci := range ssau.CallsIn(f, rm) {
+				cut.AddInstr(ci)
+			}
+			r := ssau.ReachFromEntry(f, cut)
+			for k, call := range calls {
+				nk++
+				c.R.Check("U-key", fmt.Sprintf("%s|RemoveKey#%d after a pool removal", short(fname(f)), k+1), !r.Instr(call), c.posOf(call), "the key removal is reachable without a removal of a transaction from the pool")
+			}
+		}
+		c.R.FloorCheck("U-key explicit RemoveKey calls", nk, 3)
+	}
 	// ---- L-lock
 	c.poolLocking()
 
